@@ -148,6 +148,12 @@ TreesOver(Ns, BinOps, d) ==
        IN  sub \cup {Un("NOT", a) : a \in sub}
                \cup {Bin(o, a, b) : o \in BinOps, a \in sub, b \in sub}
 
+\* the shape readers build for an equivalence - a conjunction of two implications - with every
+\* combination of literals in the four positions
+EqShapeTrees(Ns) ==
+  LET D == {Var(n) : n \in Ns} \cup {Un("NOT", Var(n)) : n \in Ns}
+  IN  {Bin("AND", Bin("IMPLIES", p, q), Bin("IMPLIES", r, s)) : p \in D, q \in D, r \in D, s \in D}
+
 \* comparison / arithmetic / aggregate constraints over the names Ns (UVL level)
 ArithTrees(Ns) ==
   LET vars  == {Var(n) : n \in Ns}
